@@ -16,6 +16,7 @@ import Ach.Model.SegmentDriver
 import Ach.Model.ReversalDriver
 import Ach.Model.FileCreateDriver
 import Ach.Model.JsonDriver
+import Ach.Model.ReadOnlyDriver
 /-!
 `achmodel`: the executable model behind the correspondence check.  Reads one
 operation per line on stdin, writes one result line per operation.
@@ -98,6 +99,7 @@ def step (cx : Ctx) (line : String) : String :=
   | "reversal" :: args => Ach.ReversalDriver.run args
   | "filecreate" :: args => Ach.FileCreate.runLine args
   | "json" :: args => Ach.JsonDriver.run args
+  | "readonly" :: args => Ach.ReadOnly.runLine args
   | ["mask", "number", h] =>
     match hexToStr h with
     | some s => bytesToHex (ByteArray.mk (maskNumber s).toArray)
